@@ -3,6 +3,7 @@ pyvc.harness -- contracts, path exploration, obligation discharge, replay on the
 """
 import copy
 import json
+import os
 import math
 import time
 import traceback
@@ -44,6 +45,16 @@ class Gen:
 
     def str(self, name):
         return self._new(name, 'str')
+
+    def text(self, name):
+        """a string over the abstract alphabet (ASCII + one representative per unicode class block, see models)"""
+        from . import models
+        s = self._new(name, 'str')
+        self.ctx.assume(z3.InRe(s.t, models.abs_alphabet_re()))
+        self.ctx.trust('minterm abstraction: symbolic strings range over ASCII + one representative per (\\d,\\w,\\s)-block of the '
+                       'non-ASCII code points (blocks computed with the real re engine); sound because the code inspects strings only '
+                       'through such classes, ASCII literals, length, split on ASCII and int()')
+        return s
 
     def atom(self, name):
         return self._new(name, 'atom')
@@ -168,6 +179,8 @@ class Reifier:
             return decode_z3_string(arg)
         if name == 'a':
             return f'@atom{arg.as_long()}'
+        if name == 'l':
+            return [f'@list{arg.as_long()}']      # an opaque list value: identified by its handle
         return WILD
 
     def guard(self, g):
@@ -293,6 +306,13 @@ class SymCaller:
     def getattr(self, obj, name):
         return self.I.getattr_(obj, name)
 
+    def attempt(self, fn, *args, **kwargs):
+        """-> ('ok', value) | ('exc', exception object): lets a lemma harness go on after a rejected call"""
+        try:
+            return 'ok', self.I.call(fn, list(args), kwargs)
+        except PyRaise as pr:
+            return 'exc', pr.exc
+
     def op(self, opname, a, b):
         import ast
         return self.I.binop(getattr(ast, opname)(), a, b)
@@ -312,6 +332,12 @@ class RealCaller:
 
     def getattr(self, obj, name):
         return getattr(obj, name)
+
+    def attempt(self, fn, *args, **kwargs):
+        try:
+            return 'ok', self.call(fn, *args, **kwargs)
+        except Exception as e:   # noqa
+            return 'exc', e
 
     def op(self, opname, a, b):
         import operator as o
@@ -337,6 +363,9 @@ class Contract:
     extra_targets = ()          # further real functions whose source is part of this contract (lemma harnesses)
     max_paths = 5000
     known = {}                  # clause -> known-finding id whose class is excluded inside the clause itself
+    hard_timeout_s = 0          # >0: every solver call runs in a forked child under this wall-clock limit (string theories)
+    summaries = {}              # 'pkg.mod:Class.func' -> summary(I, args, kwargs): callee replaced by its CONTRACT
+    bounded = None              # text describing the bound if this contract is a bounded stand-in (never counted as proved)
 
     @classmethod
     def name(cls):
@@ -380,6 +409,7 @@ def verify_contract(contract_cls, rlimit=20_000_000, seed=0, crosscheck=True):
     t_start = time.time()
     C = contract_cls()
     shared = Shared(rlimit=rlimit, max_paths=C.max_paths)
+    shared.hard_timeout_s = C.hard_timeout_s * (1 if rlimit <= 50_000_000 else 6)
     out = dict(contract=C.name(), target=C.target, props=list(C.props), clauses={}, paths=0, feasible_paths=0,
                unsupported=[], faults=[], crosscheck=dict(compared=0, mismatches=[]), functions={}, trusted=[],
                solver_calls=0, solver_s=0.0, wall_s=0.0, exists=True)
@@ -397,6 +427,9 @@ def verify_contract(contract_cls, rlimit=20_000_000, seed=0, crosscheck=True):
             out['clauses'][cname] = dict(status='violated', reason=f'function under contract not found: {e}', paths=0,
                                          solver_s=0.0, witness=None, confirmed=False)
         return out
+    for tgt, summ in C.summaries.items():
+        shared.summaries[loader.unwrap(loader.resolve(tgt)[0])] = summ
+        shared.trusted.add(f'callee {tgt} replaced by its contract (proved separately by this property\'s own obligations)')
     clause_state = {c: dict(status='discharged', paths=0, solver_s=0.0, witness=None, confirmed=False, backend='z3',
                             reason='') for c in C.ensures}
     worklist = [[]]
@@ -456,8 +489,13 @@ def verify_contract(contract_cls, rlimit=20_000_000, seed=0, crosscheck=True):
         if r == z3.unsat:
             continue          # path condition contradictory (possible after `unknown` feasibility answers)
         if r == z3.sat:
-            model_pc = ctx.solver.model()
             out['feasible_paths'] += 1
+            if crosscheck and out.get('crosscheck_s', 0) < (20 if rlimit <= 50_000_000 else 600):
+                t1 = time.time()
+                ctx.solver.set('timeout', 3000)
+                _, model_pc = realistic_model(ctx, max_iter=4)
+                ctx.solver.set('timeout', shared.timeout_ms)
+                out['crosscheck_s'] = out.get('crosscheck_s', 0) + time.time() - t1
         # ---- side obligations recorded during execution (pre@callee ...)
         for sname, f in ctx.side:
             st = clause_state.setdefault(sname, dict(status='discharged', paths=0, solver_s=0.0, witness=None,
@@ -486,35 +524,29 @@ def verify_contract(contract_cls, rlimit=20_000_000, seed=0, crosscheck=True):
             if f is True:
                 continue
             neg = z3.BoolVal(True) if f is False else z3.Not(f.t)
-            r = ctx.check(neg)
+            if os.environ.get('PYVC_TRACE'):
+                print(f'[trace] {C.name()} {cname} path {ctx.decisions}', flush=True)
+            r = ctx.check(neg, budget_ms=shared.z3_first_ms * 3)
             st['solver_s'] += time.time() - t0
+            if not ctx.model_ok or shared.cvc5_decided:
+                st['backend'] = 'z3+cvc5'
             if r == z3.unsat:
                 continue
             if r == z3.unknown:
-                r2 = portfolio_check(ctx, neg)
-                if r2 == 'unsat':
-                    st['backend'] = 'z3+cvc5'
-                    continue
-                if r2 != 'sat':
-                    if st['status'] == 'discharged':
-                        st['status'] = 'undecided'
-                        st['reason'] = f'solver unknown on path {ctx.decisions}: {ctx.solver.reason_unknown()}'
-                    continue
-                # cvc5 says sat but gives us no z3 model: treat as refuted without witness
-                if st['status'] != 'violated':
-                    st['status'] = 'violated'
-                    st['reason'] = f'cvc5: sat on path {ctx.decisions}'
+                if st['status'] == 'discharged':
+                    st['status'] = 'undecided'
+                    st['reason'] = f'z3 and cvc5 both unknown on path {ctx.decisions}: {ctx.solver.reason_unknown()}'
                 continue
             # sat: counter-model -> replay on the real code
             if st['status'] == 'violated' and st['confirmed']:
                 continue
-            ctx.solver.push()
-            ctx.solver.add(neg)
             confirmed, witness = False, None
+            blocks = []
+            t1 = time.time()
             for attempt in range(4):
-                if ctx.solver.check() != z3.sat:
+                rr, m = realistic_model(ctx, z3.And(neg, *blocks))
+                if m is None:
                     break
-                m = ctx.solver.model()
                 confirmed, witness = replay(C, init, cname, clause, m)
                 if confirmed:
                     break
@@ -527,8 +559,8 @@ def verify_contract(contract_cls, rlimit=20_000_000, seed=0, crosscheck=True):
                         pass
                 if not blk:
                     break
-                ctx.solver.add(z3.Or(*blk))
-            ctx.solver.pop()
+                blocks.append(z3.Or(*blk))
+            out['replay_s'] = out.get('replay_s', 0) + time.time() - t1
             st['status'] = 'violated'
             st['confirmed'] = confirmed
             st['witness'] = witness
@@ -544,10 +576,17 @@ def verify_contract(contract_cls, rlimit=20_000_000, seed=0, crosscheck=True):
                 out['crosscheck']['mismatches'].append(f'path {ctx.decisions}: cross-check crashed: {e!r} '
                                                        f'{traceback.format_exc()[-400:]}')
     out['clauses'] = clause_state
+    if C.bounded:
+        for cn, st in clause_state.items():
+            st['bounded'] = True
+        out['bounded'] = [dict(contract=C.name(), bound=C.bounded, obligations=sorted(clause_state))]
     out['trusted'] = sorted(shared.trusted)
     out['functions'] = {q: dict(file=i['file'], first=i['first'], last=i['last'], sha=i['sha'])
                         for q, i in shared.functions.items()}
     out['solver_calls'] = shared.solver_calls
+    out['hard_timeouts'] = shared.hard_timeouts
+    out['z3_unknown'] = shared.z3_unknown
+    out['cvc5_decided'] = shared.cvc5_decided
     out['solver_s'] = round(shared.solver_time, 3)
     out['wall_s'] = round(time.time() - t_start, 3)
     if out['unsupported']:
@@ -558,6 +597,90 @@ def verify_contract(contract_cls, rlimit=20_000_000, seed=0, crosscheck=True):
     if out['feasible_paths'] == 0 and not out['unsupported']:
         out['faults'].append('vacuous: no feasible path (contradictory requires?)')
     return out
+
+
+def _collect_oracle_apps(terms, names):
+    out, seen, stack = [], set(), list(terms)
+    while stack:
+        x = stack.pop()
+        if x.get_id() in seen:
+            continue
+        seen.add(x.get_id())
+        if z3.is_app(x) and x.num_args() > 0 and x.decl().kind() == z3.Z3_OP_UNINTERPRETED and x.decl().name() in names:
+            out.append(x)
+        stack.extend(x.children())
+    return out
+
+
+def _py_of_z3(t):
+    if z3.is_string_value(t):
+        return decode_z3_string(t)
+    if z3.is_int_value(t):
+        return t.as_long()
+    if z3.is_true(t):
+        return True
+    if z3.is_false(t):
+        return False
+    return None
+
+
+def realistic_model(ctx, extra=None, max_iter=10):
+    """a model of pc (and extra) in which every uninterpreted stand-in of a real python function (int(), json validity)
+    agrees with CPython on the arguments it is applied to.  -> (z3 result, model or None)"""
+    from . import models
+    orc = models.oracles()
+    terms = list(ctx.pc) + ([extra] if extra is not None else [])
+    apps = _collect_oracle_apps(terms, set(orc))
+    s = ctx.solver
+    s.push()
+    depth = 1
+    hinted = False
+    try:
+        if extra is not None:
+            s.add(extra)
+        for _ in range(max_iter):
+            r = ctx.safe_check()
+            if r != z3.sat:
+                return r, None
+            m = s.model()
+            if not apps:
+                return r, m
+            facts = []
+            for app in apps:
+                f, real = orc[app.decl().name()]
+                args = [m.eval(a, model_completion=True) for a in app.children()]
+                pyargs = [_py_of_z3(a) for a in args]
+                if any(a is None for a in pyargs):
+                    continue
+                val = real(*pyargs)
+                if val is None:
+                    continue
+                zval = z3.BoolVal(val) if isinstance(val, bool) else z3.StringVal(val) if isinstance(val, str) else z3.IntVal(val)
+                if not z3.is_true(m.eval(f(*args) == zval, model_completion=True)):
+                    facts.append(f(*args) == zval)
+            if not facts:
+                return r, m
+            s.add(*facts)
+            # steer towards arguments on which the real function is known to say yes
+            hints = []
+            for app in apps:
+                seeds = models.oracle_seeds().get(app.decl().name())
+                if seeds and z3.is_true(m.eval(app, model_completion=True)):
+                    hints.append(z3.Or(*[app.arg(0) == z3.StringVal(x) for x in seeds]))
+                    for x in seeds:
+                        s.add(app.decl()(z3.StringVal(x)) == z3.BoolVal(True))
+            if hints and not hinted:
+                s.push()
+                s.add(*hints)
+                if ctx.safe_check() == z3.sat:
+                    hinted = True          # keep the hint scope open (closed by the outer pop via num_scopes bookkeeping)
+                    depth += 1
+                else:
+                    s.pop()
+        return z3.unknown, None
+    finally:
+        for _ in range(depth):
+            s.pop()
 
 
 def portfolio_check(ctx, neg):
@@ -622,7 +745,7 @@ def crosscheck_path(C, init, args, kwargs, result, exc, model):
         return (f'symbolic {"raised " + exc.cls.__name__ if exc is not None else "returned"} but CPython '
                 f'{"raised " + repr(rexc) if rexc is not None else "returned " + repr(res)[:80]} on {_describe(reify_inputs(init, model))!r:.300}')
     if exc is not None:
-        if exc.cls is not type(rexc):
+        if exc.cls is not type(rexc) and not getattr(exc.cls, '_pyvc_any_exception', False):
             return f'exception class {exc.cls.__name__} vs {type(rexc).__name__} on {_describe(reify_inputs(init, model))!r:.300}'
         return ''
     d = deep_eq(sym_res, res, 'result')
